@@ -690,7 +690,16 @@ def _build_type_map(
         _type_map if _type_map is not None else {}
     )  # type: Dict[str, NamedType]
 
-    for type_ in types:
+    # Depth first with an explicit stack: one frame per type of the current
+    # path would tie the size of a schema to the recursion limit.
+    stack = [iter(types)]
+
+    while stack:
+        try:
+            type_ = next(stack[-1])
+        except StopIteration:
+            stack.pop()
+            continue
 
         if type_ is None:
             continue
@@ -729,7 +738,7 @@ def _build_type_map(
             for input_field in inner_type.fields:
                 child_types.append(input_field.type)
 
-        type_map.update(_build_type_map(child_types, _type_map=type_map))
+        stack.append(iter(child_types))
 
     if directives:
         directive_types = []  # type: List[GraphQLType]
